@@ -311,7 +311,8 @@ def mode_ml_mstep(p):
     return search(one, 60)
 
 
-def ref_map_mstep(prior, st, um, uv, uw, r, alpha, eps, thr):
+def ref_map_mstep(prior, st, um, uv, uw, r, alpha, eps, thr, known_defect=False):
+    """known_defect: the recorded finding KF-MAP-VAR written in (prior second moment taken as v0 + mu0 instead of v0 + mu0^2)"""
     w0, mu0, v0 = prior
     n = st["n"]
     a = n / (n + r) if r is not None else np.full(n.shape, alpha)
@@ -325,8 +326,9 @@ def ref_map_mstep(prior, st, um, uv, uw, r, alpha, eps, thr):
             mu = a[:, None] * (st["sum_px"] / n[:, None]) + (1 - a[:, None]) * mu0
             mu = np.where(noev[:, None], mu0, mu)
         if uv:
-            vv = a[:, None] * (st["sum_pxx"] / n[:, None]) + (1 - a[:, None]) * (v0 + mu0 ** 2) - mu ** 2
-            vv = np.where(noev[:, None], v0 + mu0 ** 2 - mu ** 2, vv)
+            m2 = mu0 if known_defect else mu0 ** 2
+            vv = a[:, None] * (st["sum_pxx"] / n[:, None]) + (1 - a[:, None]) * (v0 + m2) - mu ** 2
+            vv = np.where(noev[:, None], v0 + m2 - mu ** 2, vv)
             v = np.maximum(thr, vv)
     return w, mu, v
 
@@ -346,7 +348,7 @@ def mode_map_mstep(p):
         prior = (ubm.weights.copy(), ubm.means.copy(), ubm.variances.copy())
         st = ref_estep(x, *prior)
         for um, uv, uw in itertools.product((True, False), repeat=3):
-            if uv and p.get("no_variances"):
+            if uv and (p.get("no_variances") or p.get("skip_known")):
                 continue        # the dispatch of the M-step, not the variance blend (recorded finding KF-MAP-VAR), is in question
             for r, alpha in ((4.0, 0.5), (None, 0.3)):
                 from bob.learn.em import GMMMachine
@@ -361,15 +363,41 @@ def mode_map_mstep(p):
                 m.fit(x)
                 w, mu, v = ref_map_mstep(prior, st, um, uv, uw, r, alpha, m.mean_var_update_threshold, m.variance_thresholds)
                 for nm, got, exp in (("weights", m.weights, w), ("means", m.means, mu), ("variances", m.variances, v)):
+                    if p.get("fields") and nm not in p["fields"]:
+                        continue          # only the fields the obligation in question is about
                     if not close(got, exp, 1e-7):
-                        return {"input": {"x": x.tolist(), "prior_weights": prior[0].tolist(), "prior_means": prior[1].tolist(),
-                                          "prior_variances": prior[2].tolist(), "update_means": um, "update_variances": uv,
-                                          "update_weights": uw, "relevance_factor": r, "alpha": alpha},
-                                "field": nm, "observed": np.asarray(got).tolist(), "expected": np.asarray(exp).tolist(),
-                                "what": "one MAP step: adapted %s differ from the relevance blend of prior and data" % nm}
+                        res = {"input": {"x": x.tolist(), "prior_weights": prior[0].tolist(), "prior_means": prior[1].tolist(),
+                                         "prior_variances": prior[2].tolist(), "update_means": um, "update_variances": uv,
+                                         "update_weights": uw, "relevance_factor": r, "alpha": alpha},
+                               "field": nm, "observed": np.asarray(got).tolist(), "expected": np.asarray(exp).tolist(),
+                               "what": "one MAP step: adapted %s differ from the relevance blend of prior and data" % nm}
+                        if nm == "variances":
+                            vk = ref_map_mstep(prior, st, um, uv, uw, r, alpha, m.mean_var_update_threshold, m.variance_thresholds, known_defect=True)[2]
+                            if close(got, vk, 1e-7):
+                                res["known_finding"] = "KF-MAP-VAR"      # exactly the recorded defect, nothing else
+                        return res
                 for nm, a_, b_ in (("weights", ubm.weights, prior[0]), ("means", ubm.means, prior[1]), ("variances", ubm.variances, prior[2])):
                     if not np.array_equal(a_, b_):
                         return {"what": "the prior's %s were modified by MAP training" % nm}
+                # the M-step called directly: on caller-owned statistics (which it must leave alone) and on a machine whose CURRENT
+                # parameters are not the prior's (a later iteration, a warm start) -- the blend is between the PRIOR and the data
+                import bob.learn.em.gmm as g_
+                st_obj = g_.e_step(x, ubm)
+                keep = {f: np.array(getattr(st_obj, f), copy=True) for f in ("n", "sum_px", "sum_pxx", "t", "log_likelihood")}
+                m2 = GMMMachine(C, trainer="map", ubm=ubm, update_means=um, update_variances=uv, update_weights=uw, map_relevance_factor=r, map_alpha=alpha)
+                m2.means = prior[1] + rs.normal(size=prior[1].shape)
+                with np.errstate(all="ignore"):
+                    g_.map_gmm_m_step(m2, st_obj, update_means=um, update_variances=uv, update_weights=uw, reynolds_adaptation=(r is not None),
+                                      relevance_factor=r, alpha=alpha, mean_var_update_threshold=m2.mean_var_update_threshold)
+                for f in keep:
+                    if not np.array_equal(keep[f], getattr(st_obj, f)):
+                        return {"field": f, "observed": np.asarray(getattr(st_obj, f)).tolist(), "expected": keep[f].tolist(),
+                                "what": "map_gmm_m_step modified the caller's statistics (%s)" % f}
+                if um and not (p.get("fields") is not None and "means" not in p["fields"]):
+                    if not close(m2.means, mu, 1e-7):
+                        return {"field": "means", "observed": np.asarray(m2.means).tolist(), "expected": np.asarray(mu).tolist(),
+                                "input": {"x": x.tolist(), "prior_means": prior[1].tolist(), "relevance_factor": r, "alpha": alpha},
+                                "what": "MAP M-step on a machine whose current means are not the prior's: the adapted means are not the blend of the PRIOR and the data"}
     return search(one, 40)
 
 
